@@ -19,17 +19,22 @@ META = {
     "rule": ("one evaluation = one history of 2..14 (thorough 30) operations {enter config.set(mapping/kwargs of "
              "1-3 dotted keys in either spelling), exit innermost, set that fails part-way (path through a "
              "scalar), get under the other spelling, update/merge/collect_env/serialize} on a private config "
-             "dict or the global one; distinct = distinct history digests; non-trivial = >=3 operations with "
-             ">=1 nested context or >=1 failing set"),
+             "dict or the global one; or (1 in 5) an E2 run: 2-3 threads issuing persistent set() calls, some "
+             "failing part-way, on one private config with config_lock simulated and dask/config.py pre-empted at "
+             "lines, judged against all serial orders; distinct = distinct history digests; non-trivial = >=3 "
+             "operations with >=1 nested context or >=1 failing set (E2: a thread blocked on the lock)"),
     "abstract_measure": "distinct (context depth, number of top-level verif keys) pairs",
     "gates": {"quick": {"failing_set": 2000, "failing_set_after_success": 500, "nested_depth2": 2000,
-                        "alt_spelling_hit": 2000},
+                        "alt_spelling_hit": 2000, "e2_runs": 2000, "e2_failing_set": 1000,
+                        "lock_contended": 2000},
               "thorough": {"failing_set": 2000}},
     "anchors": ["dask/config.py"],
     "real": ["dask.config.set/_assign/__exit__, get, canonical_name, update, merge, collect_env, "
              "serialize/deserialize"],
-    "stubbed": [],
-    "assumptions": ["single-threaded histories (config_lock contention is not part of the statement)",
+    "stubbed": ["E2 slice: the lock= argument of config.set (config_lock) -> SimLock"],
+    "assumptions": ["context enter/exit histories are single-threaded (contexts of different threads do not nest); "
+                    "the E2 slice uses persistent set() calls only and asks that concurrent calls are serializable "
+                    "and that a failing call changes nothing",
                     "keys live in a private verif-* namespace so real dask configuration is never touched"],
 }
 
@@ -83,11 +88,108 @@ def verif_view(cfg):
             if k.replace("_", "-") in ("verif-a", "verif-b", "verif-c")}
 
 
+def _orders(seqs):
+    """All merges of the per-thread operation sequences (thread order kept)."""
+    if all(not q for q in seqs):
+        yield []
+        return
+    for i, q in enumerate(seqs):
+        if q:
+            rest = [list(x) for x in seqs]
+            head = rest[i].pop(0)
+            for tail in _orders(rest):
+                yield [head] + tail
+
+
+def run_threads(tape, cfg, out):
+    """E2 slice: 2-3 threads issue persistent set() calls (some failing part-way) on one private
+    configuration; config_lock is a simulated lock, dask/config.py is pre-empted at line
+    granularity.  Oracle: the observed per-call outcomes and the final configuration are those of
+    SOME serial order of the calls (a failing call contributes nothing)."""
+    import dask.config as dc
+    from sim.simthreads import SimLock, SimThreads
+
+    conf = {}
+    with tape.span("init"):
+        init = gen_tree(tape)
+    for k, v in init.items():
+        conf[k] = copy.deepcopy(v)
+    with tape.span("programs"):
+        nthreads = 2 + tape.draw(2, "nthreads")
+        programs = []
+        for t in range(nthreads):
+            prog = []
+            for _ in range(1 + tape.draw(2 if nthreads == 3 else 3, "ncalls")):
+                n = 1 + tape.draw(3, "nkeys")
+                mapping = {}
+                for _ in range(n):
+                    mapping[gen_key(tape)] = gen_value(tape)
+                prog.append(list(mapping.items()))
+            programs.append(prog)
+        policy = tape.choice(SimThreads.POLICIES, "policy")
+        trace_den = (4, 8, 20)[tape.draw(3, "tden")]
+    lock = SimLock()
+    sched = SimThreads(tape, policy=policy, step_cap=200000, trace_files=("dask/config.py",),
+                       trace_den=trace_den)
+    observed = {}
+
+    def body(t):
+        def run():
+            for j, items in enumerate(programs[t]):
+                try:
+                    dc.set({k: copy.deepcopy(v) for k, v in items}, config=conf, lock=lock)
+                    observed[(t, j)] = "ok"
+                except (TypeError, ValueError, KeyError, AttributeError) as e:
+                    observed[(t, j)] = "raised"
+        return run
+
+    with sched:
+        sts = [sched.spawn(body(t), name=f"cfg{t}") for t in range(nthreads)]
+        res = sched.run()
+    wl = {"init": init, "programs": programs, "policy": policy, "threads": True}
+    out.decoded = wl
+    out.wdigest = dg(wl)
+    out.digest = sched.digest()
+    out.policy = policy
+    out.klass = "threads"
+    out.probes.update(sched.probes)
+    out.probe("e2_runs")
+    out.sim_time = float(sched.steps)
+    out.nontrivial = sched.probes.get("lock_contended", 0) > 0
+    for st in sts:
+        if st.exc is not None:
+            return out.violate("set_raised_unexpectedly", f"thread {st.name}: {type(st.exc).__name__}: {st.exc}")
+    if res != "ok":
+        return out.violate("no_termination", f"{res}: {sched.deadlock}")
+    final = verif_view(conf)
+    seqs = [[(t, j) for j in range(len(programs[t]))] for t in range(nthreads)]
+    any_fail = False
+    for order in _orders(seqs):
+        model = copy.deepcopy(verif_view(init))
+        outcomes = {}
+        for (t, j) in order:
+            try:
+                model = cm.model_set(model, programs[t][j])
+                outcomes[(t, j)] = "ok"
+            except cm.SetFails:
+                outcomes[(t, j)] = "raised"
+                any_fail = True
+        if outcomes == observed and model == final:
+            if any_fail:
+                out.probe("e2_failing_set")
+            return out
+    return out.violate("not_serializable",
+                       f"no serial order of the set calls gives the observed outcomes {observed} and final "
+                       f"configuration {final} (initial {verif_view(init)}, programs {programs})")
+
+
 def run_one(tape, cfg):
     import dask
     import dask.config as dc
 
     out = Outcome()
+    if tape.chance(1, 5, "threads"):
+        return run_threads(tape, cfg, out)
     hist = []
     use_global = tape.chance(1, 2, "global")
     if use_global:
